@@ -422,7 +422,7 @@ func (jf *JSONFamily) objectSpecAP(e *FuncEnc, jt *jsonType, c, obj0, obj1 strin
 		if visited != nil {
 			in = visited(q)
 		}
-		restBody = eq(sx("select", obj1, q), ite(in, ap.entry(q), sx("select", obj0, q)))
+		restBody = ite(in, ap.entryOK(sx("select", obj1, q), q), eq(sx("select", obj1, q), sx("select", obj0, q)))
 		if visited == nil {
 			anys = append(anys, ap.lenPos)
 			any = or(anys...)
@@ -923,6 +923,7 @@ type apCtx struct {
 	m      string // the map value (address)
 	has    func(k string) string
 	entry  func(k string) string // JOpt entry written for key k
+	entryOK func(a, k string) string // entry a is what must be written for key k
 	lenPos string               // the map has at least one key
 	ks     string
 	problem string
@@ -946,14 +947,20 @@ func (jf *JSONFamily) apOf(e *FuncEnc, jt *jsonType, c string, st *state) *apCtx
 		}
 		return sx("j_some", sx("jv_enc", e.ifaceOf(elem, v)))
 	}
-	lenf := e.D.UF("maplen_"+mangle(ks), []string{fmt.Sprintf("(Array %s Bool)", ks)}, "Int")
-	e.D.Axiom("maplen_"+mangle(ks), fmt.Sprintf("(forall ((a (Array %s Bool))) (! (>= (%s a) 0) :pattern ((%s a))))", ks, lenf, lenf))
-	e.D.Axiom("maplen0_"+mangle(ks), fmt.Sprintf("(= (%s ((as const (Array %s Bool)) false)) 0)", lenf, ks))
-	// a map with a key has positive length
-	e.D.Axiom("maplenpos_"+mangle(ks), fmt.Sprintf("(forall ((a (Array %s Bool)) (k %s)) (! (=> (select a k) (> (%s a) 0)) :pattern ((select a k) (%s a))))", ks, ks, lenf, lenf))
-	// a map of positive length has a key
-	wit := e.D.UF("mapwit_"+mangle(ks), []string{fmt.Sprintf("(Array %s Bool)", ks)}, ks)
-	e.D.Axiom("maplenwit_"+mangle(ks), fmt.Sprintf("(forall ((a (Array %s Bool))) (! (=> (> (%s a) 0) (select a (%s a))) :pattern ((%s a))))", ks, lenf, wit, lenf))
+	// entryOK: member entry `a` is the encoding of the map value under key k, by
+	// the same rule as a declared property of that schema (a nil slice is
+	// written as an empty array, not as null)
+	ctx.entryOK = func(a, k string) string {
+		if jt.Schema.APSchema == nil || types.IsInterface(elem) {
+			return eq(a, ctx.entry(k))
+		}
+		f, problem := jf.valueOK(e, a, sx("select", valArr, k), elem, jt.Schema.APSchema)
+		if problem != "" && ctx.problem == "" {
+			ctx.problem = "additional property values: " + problem
+		}
+		return f
+	}
+	lenf := e.D.MapLen(ks)
 	ctx.lenPos = and(not(eq(m, "0")), sx(">", sx(lenf, hasArr), "0"))
 	if jt.Schema.APSchema != nil && !types.IsInterface(elem) && !goKindMatches(elem, jt.Schema.APSchema) {
 		ctx.problem = fmt.Sprintf("additional property values of Go type %s do not encode as JSON %q", elem, jt.Schema.APSchema.Type)
